@@ -34,7 +34,7 @@ def prepare(tier):
 
 @st.composite
 def case_strategy(draw):
-    case = draw(c01.case_strategy())
+    case = draw(c01.case_strategy(allow_rle=True))
     return case
 
 
